@@ -2,6 +2,7 @@ package main
 
 import (
 	"fmt"
+	"os"
 	"go/ast"
 	"go/token"
 	"go/types"
@@ -101,6 +102,9 @@ type fnTrans struct {
 	nOb map[string]int
 	tupleVals map[ssa.Value][]Term
 	paramTV map[string]TV
+	verTop   map[string]Term
+	frameCache *frameSpec
+	wfSeen map[*ssa.BasicBlock]map[string]bool
 	lemmaOK  map[int]bool
 	lemmaErr map[int]string
 	userCallback bool
@@ -158,11 +162,53 @@ func (f *fnTrans) heap(name string) Term {
 }
 
 func (f *fnTrans) setHeap(name string, t Term) {
-	f.cur.h[name] = f.define(name, t)
+	v := f.define(name, t)
+	f.cur.h[name] = v
+	f.noteVersion(name, v)
 }
 
 func (f *fnTrans) havocHeap(name string) {
-	f.cur.h[name] = f.fresh(name, f.w.heapSort[name])
+	v := f.fresh(name, f.w.heapSort[name])
+	f.cur.h[name] = v
+	f.noteVersion(name, v)
+}
+
+// noteVersion remembers the allocation counter in force when a heap version came into being.
+func (f *fnTrans) noteVersion(name string, v Term) {
+	if name == "G$allocTop" {
+		return
+	}
+	if f.verTop == nil {
+		f.verTop = map[string]Term{}
+	}
+	if _, seen := f.verTop[v.S]; !seen {
+		f.verTop[v.S] = f.heap("G$allocTop")
+	}
+}
+
+// wfSeenMap: heap versions whose well-formedness axiom has been emitted, per block
+// (facts are guarded by the block they are emitted in).
+func (f *fnTrans) wfSeenMap() map[string]bool {
+	if f.wfSeen == nil {
+		f.wfSeen = map[*ssa.BasicBlock]map[string]bool{}
+	}
+	m := f.wfSeen[f.curB]
+	if m == nil {
+		m = map[string]bool{}
+		f.wfSeen[f.curB] = m
+	}
+	return m
+}
+
+func (f *fnTrans) topForVersion(v Term) (Term, bool) {
+	if strings.HasSuffix(v.S, "@0") {
+		if t, ok := f.entry.h["G$allocTop"]; ok {
+			return t, true
+		}
+		return Sym("G$allocTop@0", SInt), true
+	}
+	t, ok := f.verTop[v.S]
+	return t, ok
 }
 
 func (f *fnTrans) posOf(p token.Pos) string {
@@ -555,6 +601,21 @@ func (f *fnTrans) lookupAt(b *ssa.BasicBlock, st *State, phiOverride map[string]
 			}
 			best, bestAddr = d.X, d.IsAddr
 		}
+		if best == nil {
+			// address-taken locals and named results kept in cells: find the cell by its name
+			for _, blk := range f.fn.Blocks {
+				if b != nil && !(blk == b || blk.Dominates(b)) {
+					continue
+				}
+				for _, ins := range blk.Instrs {
+					if a, ok := ins.(*ssa.Alloc); ok && a.Comment == name {
+						if _, seen := f.vals[a]; seen {
+							best, bestAddr = a, true
+						}
+					}
+				}
+			}
+		}
 		if best != nil {
 			if bestAddr {
 				a := f.addrOf(best)
@@ -589,6 +650,9 @@ func (f *fnTrans) loadNoSafety(a Addr) Term {
 
 func (f *fnTrans) env(b *ssa.BasicBlock, st *State, extra map[string]TV) *Env {
 	e := &Env{w: f.w, names: f.baseNames(), st: st, old: f.entry, lets: map[string]SExpr{}}
+	e.emit = func(t Term) { f.factHere(t) }
+	e.topFor = f.topForVersion
+	e.wfSeen = f.wfSeenMap()
 	if f.c != nil {
 		for _, l := range f.c.Lets {
 			ex, err := ParseSpecExpr(l[1])
@@ -742,10 +806,15 @@ func (f *fnTrans) callMods(c *ssa.CallCommon) []string {
 		if ct, ok := f.w.Spec.Contracts[name]; ok {
 			addAll(f.w.modHeapsOfContract(ct, c.Signature()))
 		}
-		for _, g := range f.w.FnAll {
-			if g.Signature.Recv() != nil && g.Name() == c.Method.Name() &&
-				types.Implements(g.Signature.Recv().Type(), c.Value.Type().Underlying().(*types.Interface)) {
-				addAll(f.w.ModsetOf(g))
+		for _, g := range f.w.implsOf(c) {
+			for h := range f.w.CallSiteMods(f.fn, g, append([]ssa.Value{c.Value}, c.Args...)) {
+				set[h] = true
+			}
+		}
+		// function values handed to an interface method may be called by it
+		for _, a := range c.Args {
+			if isFnTyped(a) {
+				f.fnValEffects(a, set)
 			}
 		}
 	case callee == nil:
@@ -796,7 +865,16 @@ func (f *fnTrans) callMods(c *ssa.CallCommon) []string {
 		if ct != nil && (ct.HasMod && (ct.Trusted || !inPkg)) {
 			addAll(f.w.modHeapsOfContract(ct, callee.Signature))
 		} else if inPkg {
-			addAll(f.w.ModsetOf(callee))
+			for h := range f.w.CallSiteMods(f.fn, callee, c.Args) {
+				set[h] = true
+			}
+		}
+		if !inPkg {
+			for _, a := range c.Args {
+				if isFnTyped(a) {
+					f.fnValEffects(a, set)
+				}
+			}
 		}
 	}
 	var out []string
@@ -976,6 +1054,9 @@ func contractProps(c *Contract) []string {
 	for _, p := range c.ExtraProps {
 		set[p] = true
 	}
+	for _, p := range c.FramesProps {
+		set[p] = true
+	}
 	for _, cls := range c.At {
 		for _, cl := range cls {
 			for _, p := range cl.Props {
@@ -1151,6 +1232,7 @@ func (f *fnTrans) headerPhis(li *loopInfo) []*ssa.Phi {
 func (f *fnTrans) checkInvariants(li *loopInfo, kind string, from *ssa.BasicBlock, st *State, guard Term) {
 	if li.spec == nil {
 		f.protectCheck(kind, fmt.Sprintf("loop%d", li.ord), from, st, guard, li.header.Instrs[0].Pos(), li.mods)
+		f.frameLoopCheck(kind, li, from, st, guard, false)
 		return
 	}
 	over := map[string]TV{}
@@ -1179,6 +1261,7 @@ func (f *fnTrans) checkInvariants(li *loopInfo, kind string, from *ssa.BasicBloc
 		f.factOb(guard, t)
 	}
 	f.protectCheck(kind, fmt.Sprintf("loop%d", li.ord), from, st, guard, li.header.Instrs[0].Pos(), li.mods)
+	f.frameLoopCheck(kind, li, from, st, guard, false)
 }
 
 // protectGoal: heap h is unchanged (relative to function entry) on every object that existed at entry.
@@ -1196,6 +1279,78 @@ func (f *fnTrans) protectGoal(h string, st *State) (Term, bool) {
 		top0 = t
 	}
 	return f.frameFormula(h, nil, before, after, top0), true
+}
+
+// entryFrame: the function's frame specification (modifies or frames), evaluated at entry.
+func (f *fnTrans) entryFrame() (*frameSpec, []string, Term) {
+	if f.c == nil || (!f.c.HasMod && len(f.c.Frames) == 0) {
+		return nil, nil, Term{}
+	}
+	if f.frameCache == nil {
+		env := f.env(f.fn.Blocks[0], f.entry, nil)
+		env.old = f.entry
+		if f.c.HasMod {
+			f.frameCache = f.frameOfMods(f.c.Modifies, f.fn.Signature, env)
+			for _, h := range f.w.ModsetOf(f.fn) {
+				if _, ok := f.frameCache.locs[h]; !ok && !f.frameCache.whole[h] && h != "G$allocTop" {
+					f.frameCache.locs[h] = nil
+				}
+			}
+		} else {
+			f.frameCache = f.frameOfMods(f.c.Frames, f.fn.Signature, env)
+		}
+	}
+	var hs []string
+	for h := range f.frameCache.locs {
+		if !f.frameCache.whole[h] {
+			hs = append(hs, h)
+		}
+	}
+	sort.Strings(hs)
+	top0 := Sym("G$allocTop@0", SInt)
+	if t, ok := f.entry.h["G$allocTop"]; ok {
+		top0 = t
+	}
+	if !f.w.modsets[f.fn]["G$allocTop"] {
+		top0 = Term{}
+	}
+	return f.frameCache, hs, top0
+}
+
+// frameLoopCheck: loops preserve the function's frame (relative to function entry).
+func (f *fnTrans) frameLoopCheck(kind string, li *loopInfo, from *ssa.BasicBlock, st *State, guard Term, assumeOnly bool) {
+	fs, hs, top0 := f.entryFrame()
+	if fs == nil {
+		return
+	}
+	props := f.c.FramesProps
+	if len(props) == 0 {
+		props = f.allProps
+	}
+	for _, h := range hs {
+		if !li.mods[h] {
+			continue
+		}
+		before := Sym(h+"@0", f.w.heapSort[h])
+		if t, ok := f.entry.h[h]; ok {
+			before = t
+		}
+		after, ok := st.h[h]
+		if !ok || after.S == before.S {
+			continue
+		}
+		g := f.frameFormula(h, fs.locs[h], before, after, top0)
+		if assumeOnly {
+			f.fact(guard, g)
+			continue
+		}
+		o := f.oblige("frame", fmt.Sprintf("loop %d keeps the frame of %s (%s)", li.ord, h, kind), li.header.Instrs[0].Pos(), props, guard, g)
+		o.Name = fmt.Sprintf("%s/frame:%s@loop%d:%s", f.name, h, li.ord, strings.TrimPrefix(kind, "inv-"))
+		if kind == "inv-step" {
+			o.Name += fmt.Sprintf("@b%d", from.Index)
+		}
+		f.factOb(guard, g)
+	}
 }
 
 func (f *fnTrans) protectCheck(kind, where string, from *ssa.BasicBlock, st *State, guard Term, pos token.Pos, mods map[string]bool) {
@@ -1241,12 +1396,18 @@ func (f *fnTrans) loopEntry(li *loopInfo, preds []*ssa.BasicBlock, conds []Term)
 		mods = append(mods, h)
 	}
 	sort.Strings(mods)
-	preTop := f.heap("G$allocTop")
-	for _, h := range mods {
-		f.havocHeap(h)
+	if os.Getenv("ICEVC_TRACE") != "" {
+		fmt.Fprintf(os.Stderr, "TRACE %s: loop %d havocs %v\n", f.name, li.ord, mods)
 	}
+	preTop := f.heap("G$allocTop")
 	if li.mods["G$allocTop"] {
+		f.havocHeap("G$allocTop")
 		f.factHere(Ge(f.heap("G$allocTop"), preTop))
+	}
+	for _, h := range mods {
+		if h != "G$allocTop" {
+			f.havocHeap(h)
+		}
 	}
 	li.phiTerm = map[*ssa.Phi]Term{}
 	over := map[string]TV{}
@@ -1256,8 +1417,20 @@ func (f *fnTrans) loopEntry(li *loopInfo, preds []*ssa.BasicBlock, conds []Term)
 		li.phiTerm[phi] = t
 		f.factHere(f.rangeFact(t, phi.Type()))
 		if phi.Comment == "rangeindex" {
-			// the hidden index of a range loop starts at -1 and only ever grows by one
+			// the hidden index of a range loop starts at -1 and only ever grows by one,
+			// and the loop is re-entered only while index+1 < len
 			f.factHere(Ge(t, IntLit(-1)))
+			for _, ins := range hdr.Instrs {
+				if bo, ok := ins.(*ssa.BinOp); ok && bo.Op == token.LSS {
+					if inc, ok := bo.X.(*ssa.BinOp); ok && inc.Op == token.ADD && inc.X == ssa.Value(phi) {
+						if _, defined := f.vals[bo.Y]; defined {
+							f.factHere(Le(Add(t, IntLit(1)), f.val(bo.Y)))
+						} else if _, isConst := bo.Y.(*ssa.Const); isConst {
+							f.factHere(Le(Add(t, IntLit(1)), f.val(bo.Y)))
+						}
+					}
+				}
+			}
 		}
 		if phi.Comment != "" {
 			over[phi.Comment] = TV{t, phi.Type()}
@@ -1272,6 +1445,7 @@ func (f *fnTrans) loopEntry(li *loopInfo, preds []*ssa.BasicBlock, conds []Term)
 			}
 		}
 	}
+	f.frameLoopCheck("head", li, hdr, f.cur, f.here(), true)
 	li.preState = f.cur.Clone()
 	if li.spec != nil {
 		env := f.env(hdr, f.cur, over)
@@ -1446,5 +1620,24 @@ func (f *fnTrans) atAnchor(ins ssa.Instruction) {
 		o := f.oblige("lemma", fmt.Sprintf("at %s: %s", a, cl.Src), ins.Pos(), f.propsOf(cl), f.here(), t)
 		o.Name = fmt.Sprintf("%s/at:%s/lemma%d", f.name, a, k)
 		f.factOb(f.here(), t)
+	}
+}
+
+// fnValEffects adds what calling function value v (any number of times) may write.
+func (f *fnTrans) fnValEffects(v ssa.Value, set map[string]bool) {
+	fns, user := f.w.FnValueTargets(stripFnVal(v))
+	for _, g := range fns {
+		for h := range f.w.modsets[g] {
+			set[h] = true
+		}
+	}
+	if user {
+		for _, n := range reentryAPI {
+			if g, ok := f.w.Fns[n]; ok {
+				for h := range f.w.modsets[g] {
+					set[h] = true
+				}
+			}
+		}
 	}
 }
